@@ -154,7 +154,7 @@ def _rand_obj(rng, pardim, continuous=False, **kw):
 
 
 def _gen_center(rng, tier, specs):
-    n = 36 if tier == 'quick' else 400
+    n = 48 if tier == 'quick' else 400
     for i in range(n):
         pardim = [1, 2, 3, 1, 2, 2][i % 6]
         o = gen.rand_object(rng, pardim=pardim, pmax=4 if pardim < 3 else 3, max_interior=2 if pardim < 3 else 1,
@@ -163,7 +163,7 @@ def _gen_center(rng, tier, specs):
 
 
 def _gen_volume(rng, tier, specs):
-    n = 8 if tier == 'quick' else 60
+    n = 12 if tier == 'quick' else 60
     for i in range(n):
         o = _rand_obj(rng, 3, pmax=3 if tier == 'quick' else 4, max_interior=1, rational=(i % 4 == 3),
                       periodic_prob=0.15)
@@ -186,7 +186,7 @@ def _well_oriented(rng, o):
 
 
 def _gen_length(rng, tier, specs):
-    n = 30 if tier == 'quick' else 300
+    n = 40 if tier == 'quick' else 300
     for i in range(n):
         dim = [2, 3, 3, 2, 4][i % 5]
         o = _rand_obj(rng, 1, dim=dim, pmax=5, max_interior=3, rational=(i % 3 == 1), periodic_prob=0.3)
@@ -214,7 +214,7 @@ def _gen_length(rng, tier, specs):
 
 
 def _gen_area(rng, tier, specs):
-    n = 16 if tier == 'quick' else 150
+    n = 24 if tier == 'quick' else 150
     for i in range(n):
         dim = [2, 3, 3, 2, 3, 2, 3, 4][i % 8]
         o = _rand_obj(rng, 2, dim=dim, pmax=4 if tier == 'thorough' else 3, max_interior=2, rational=(i % 3 == 2),
@@ -276,7 +276,7 @@ REP_OPS = ['insert', 'raise', 'split', 'reverse', 'swap', 'rigid', 'mirror', 'sc
 
 
 def _gen_repind(rng, tier, specs):
-    n = 48 if tier == 'quick' else 500
+    n = 96 if tier == 'quick' else 500
     for i in range(n):
         op = REP_OPS[i % len(REP_OPS)]
         pardim = [1, 2, 1, 3, 2, 1][(i // len(REP_OPS)) % 6]
